@@ -112,4 +112,239 @@ theorem defined_once (s : Shape) : ((createSubtype s []).1.map itemName).Nodup :
   rw [List.pairwise_reverse] at this
   exact this.imp (fun h => Ne.symm h)
 
+/-! ### every referenced type is defined -/
+
+mutual
+/-- the named types a type expression refers to -/
+def refsTy : Ty → List String
+  | .named n => [n]
+  | .option t => refsTy t
+  | .vec t => refsTy t
+  | .tuple ts => refsTys ts
+  | _ => []
+def refsTys : List Ty → List String
+  | [] => []
+  | t :: ts => refsTy t ++ refsTys ts
+end
+
+def itemRefs : GItem → List String
+  | .alias _ t => refsTy t
+  | .struct_ _ fs => refsTys (fs.map (·.2))
+  | .enum_ _ vs => refsTys (vs.map (·.2))
+
+/-- what one call of `create_subtype` guarantees about names: nothing already defined is forgotten,
+the type written for the shape itself and every type inside the emitted items is defined afterwards -/
+def Covers (s : Shape) (d : List String) (r : List GItem × List String) : Prop :=
+  (∀ x ∈ d, x ∈ r.2) ∧ (∀ x ∈ refsTy (shapeRepr s), x ∈ r.2) ∧ (∀ it ∈ r.1, ∀ x ∈ itemRefs it, x ∈ r.2)
+
+def CoversList (l : List Shape) (d : List String) (r : List GItem × List String) : Prop :=
+  (∀ x ∈ d, x ∈ r.2) ∧ (∀ x ∈ refsTys (shapeReprList l), x ∈ r.2) ∧ (∀ it ∈ r.1, ∀ x ∈ itemRefs it, x ∈ r.2)
+
+theorem refs_structOf (name : String) (c : Members) :
+    itemRefs (structOf name c) = refsTys (shapeReprList (c.map (·.2))) := by
+  simp only [itemRefs, structOf, List.map_map]
+  congr 1
+  induction c with
+  | nil => rfl
+  | cons kv c ih => simp [shapeReprList, ih]
+
+theorem refs_enumOf (name : String) (vs : List Shape) :
+    itemRefs (enumOf name vs) = refsTys (shapeReprList vs) := by
+  simp only [itemRefs, enumOf, List.map_map]
+  congr 1
+  induction vs with
+  | nil => rfl
+  | cons v vs ih => simp [shapeReprList, ih]
+
+theorem createSubtype_covers_aux (n : Nat) :
+    ∀ s : Shape, sizeOf s ≤ n → ∀ d : List String, Covers s d (createSubtype s d) := by
+  induction n with
+  | zero => intro s h; cases s <;> simp at h
+  | succ n ih =>
+    have ihL : ∀ l : List Shape, (∀ s ∈ l, sizeOf s ≤ n) → ∀ d : List String,
+        CoversList l d (createSubtypeList l d) := by
+      intro l
+      induction l with
+      | nil => intro _ d; simp [CoversList, createSubtypeList, shapeReprList, refsTys]
+      | cons a l ihl =>
+        intro hs d
+        simp only [createSubtypeList]
+        obtain ⟨a1, a2, a3⟩ := ih a (hs a (by simp)) d
+        obtain ⟨b1, b2, b3⟩ := ihl (fun s hs' => hs s (by simp [hs'])) (createSubtype a d).2
+        refine ⟨fun x hx => b1 x (a1 x hx), ?_, ?_⟩
+        · intro x hx
+          simp only [shapeReprList, refsTys, List.mem_append] at hx
+          rcases hx with hx | hx
+          · exact b1 x (a2 x hx)
+          · exact b2 x hx
+        · intro it hit x hx
+          rcases List.mem_append.1 hit with hit | hit
+          · exact b1 x (a3 it hit x hx)
+          · exact b3 it hit x hx
+    have ihM : ∀ c : Members, (∀ kv ∈ c, sizeOf kv.2 ≤ n) → ∀ d : List String,
+        CoversList (c.map (·.2)) d (createSubtypeMembers c d) := by
+      intro c
+      induction c with
+      | nil => intro _ d; simp [CoversList, createSubtypeMembers, shapeReprList, refsTys]
+      | cons a c ihc =>
+        obtain ⟨k, v⟩ := a
+        intro hs d
+        simp only [createSubtypeMembers, List.map_cons]
+        obtain ⟨a1, a2, a3⟩ := ih v (hs (k, v) (by simp)) d
+        obtain ⟨b1, b2, b3⟩ := ihc (fun kv hkv => hs kv (by simp [hkv])) (createSubtype v d).2
+        refine ⟨fun x hx => b1 x (a1 x hx), ?_, ?_⟩
+        · intro x hx
+          simp only [shapeReprList, refsTys, List.mem_append] at hx
+          rcases hx with hx | hx
+          · exact b1 x (a2 x hx)
+          · exact b2 x hx
+        · intro it hit x hx
+          rcases List.mem_append.1 hit with hit | hit
+          · exact b1 x (a3 it hit x hx)
+          · exact b3 it hit x hx
+    intro s hn d
+    cases s with
+    | null => simp [Covers, createSubtype, shapeRepr, refsTy]
+    | bool o => cases o <;> simp [Covers, createSubtype, shapeRepr, refsTy]
+    | number o => cases o <;> simp [Covers, createSubtype, shapeRepr, refsTy]
+    | string o => cases o <;> simp [Covers, createSubtype, shapeRepr, refsTy]
+    | array t o =>
+      obtain ⟨a1, a2, a3⟩ := ih t (by simp at hn; omega) d
+      simp only [createSubtype]
+      refine ⟨a1, ?_, a3⟩
+      cases o <;> simpa [shapeRepr, refsTy] using a2
+    | tuple es o =>
+      obtain ⟨a1, a2, a3⟩ := ihL es (fun s hs => by have := List.sizeOf_lt_of_mem hs; simp at hn; omega) d
+      simp only [createSubtype]
+      refine ⟨a1, ?_, a3⟩
+      cases o <;> simpa [shapeRepr, refsTy] using a2
+    | object c o =>
+      have hsz : ∀ kv ∈ c, sizeOf kv.2 ≤ n := by
+        intro kv hkv
+        have := List.sizeOf_lt_of_mem hkv
+        obtain ⟨k, v⟩ := kv
+        simp at this hn ⊢; omega
+      have hrefs : refsTy (shapeRepr (.object c o)) = [String.ofList (shapeName (.object c o))] := by
+        cases o <;> simp [shapeRepr, refsTy]
+      simp only [createSubtype]
+      split
+      · rename_i hc
+        refine ⟨fun x hx => hx, ?_, by simp⟩
+        intro x hx
+        rw [hrefs] at hx
+        simp only [List.mem_singleton] at hx
+        subst hx
+        simpa using hc
+      · obtain ⟨b1, b2, b3⟩ := ihM c hsz (String.ofList (shapeName (.object c o)) :: d)
+        refine ⟨fun x hx => b1 x (by simp [hx]), ?_, ?_⟩
+        · intro x hx
+          rw [hrefs] at hx
+          simp only [List.mem_singleton] at hx
+          subst hx
+          exact b1 _ (by simp)
+        · intro it hit x hx
+          rcases List.mem_cons.1 hit with rfl | hit
+          · rw [refs_structOf] at hx; exact b2 x hx
+          · exact b3 it hit x hx
+    | oneOf vs o =>
+      have hsz : ∀ v ∈ vs, sizeOf v ≤ n := by
+        intro v hv; have := List.sizeOf_lt_of_mem hv; simp at hn; omega
+      have hrefs : refsTy (shapeRepr (.oneOf vs o)) = [String.ofList (shapeName (.oneOf vs o))] := by
+        cases o <;> simp [shapeRepr, refsTy]
+      simp only [createSubtype]
+      split
+      · rename_i hc
+        refine ⟨fun x hx => hx, ?_, by simp⟩
+        intro x hx
+        rw [hrefs] at hx
+        simp only [List.mem_singleton] at hx
+        subst hx
+        simpa using hc
+      · obtain ⟨b1, b2, b3⟩ := ihL vs hsz (String.ofList (shapeName (.oneOf vs o)) :: d)
+        refine ⟨fun x hx => b1 x (by simp [hx]), ?_, ?_⟩
+        · intro x hx
+          rw [hrefs] at hx
+          simp only [List.mem_singleton] at hx
+          subst hx
+          exact b1 _ (by simp)
+        · intro it hit x hx
+          rcases List.mem_cons.1 hit with rfl | hit
+          · rw [refs_enumOf] at hx; exact b2 x hx
+          · exact b3 it hit x hx
+
+theorem createSubtype_covers (s : Shape) (d : List String) : Covers s d (createSubtype s d) :=
+  createSubtype_covers_aux (sizeOf s) s (Nat.le_refl _) d
+
+theorem createSubtypeList_covers (l : List Shape) (d : List String) : CoversList l d (createSubtypeList l d) := by
+  induction l generalizing d with
+  | nil => simp [CoversList, createSubtypeList, shapeReprList, refsTys]
+  | cons a l ihl =>
+    simp only [createSubtypeList]
+    obtain ⟨a1, a2, a3⟩ := createSubtype_covers a d
+    obtain ⟨b1, b2, b3⟩ := ihl (createSubtype a d).2
+    refine ⟨fun x hx => b1 x (a1 x hx), ?_, ?_⟩
+    · intro x hx
+      simp only [shapeReprList, refsTys, List.mem_append] at hx
+      rcases hx with hx | hx
+      · exact b1 x (a2 x hx)
+      · exact b2 x hx
+    · intro it hit x hx
+      rcases List.mem_append.1 hit with hit | hit
+      · exact b1 x (a3 it hit x hx)
+      · exact b3 it hit x hx
+
+theorem defined_names (s : Shape) : (createSubtype s []).2 = ((createSubtype s []).1.map itemName).reverse := by
+  simpa using (createSubtype_definesOnce_aux (sizeOf s) s (Nat.le_refl _) [] List.nodup_nil).1
+
+theorem definesOnce_list : ∀ (l : List Shape) (d : List String), d.Nodup → DefinesOnce (createSubtypeList l d) d
+  | [], d, hd => by simp only [createSubtypeList]; exact definesOnce_nil hd
+  | a :: l, d, hd => by
+    simp only [createSubtypeList]
+    have h1 := createSubtype_definesOnce_aux (sizeOf a) a (Nat.le_refl _) d hd
+    have h2 := definesOnce_list l (createSubtype a d).2 (by rw [h1.1]; exact h1.2)
+    exact definesOnce_append h1 h2
+
+/-- **self-contained**: every named type that occurs in any item of the generated module is the name
+of an item of the module, for every shape -/
+theorem refs_defined (s : Shape) :
+    ∀ it ∈ firstPass s, ∀ x ∈ itemRefs it, x ∈ (firstPass s).map itemName := by
+  have hsub : ∀ x, x ∈ (createSubtype s []).2 → x ∈ (createSubtype s []).1.map itemName := by
+    intro x hx; rw [defined_names] at hx; simpa using hx
+  have hobj : ∀ it ∈ (createSubtype s []).1, ∀ x ∈ itemRefs it, x ∈ (createSubtype s []).1.map itemName :=
+    fun it hit x hx => hsub x ((createSubtype_covers s []).2.2 it hit x hx)
+  cases s with
+  | null => simp [firstPass, itemRefs, refsTy]
+  | bool o => cases o <;> simp [firstPass, itemRefs, refsTy]
+  | number o => cases o <;> simp [firstPass, itemRefs, refsTy]
+  | string o => cases o <;> simp [firstPass, itemRefs, refsTy]
+  | object c o => simpa [firstPass] using hobj
+  | oneOf vs o => simpa [firstPass] using hobj
+  | array t o =>
+    have hcov := createSubtype_covers t []
+    have hnames : (createSubtype t []).2 = ((createSubtype t []).1.map itemName).reverse := defined_names t
+    simp only [firstPass]
+    intro it hit x hx
+    simp only [List.map_cons, List.mem_cons]
+    right
+    rcases List.mem_cons.1 hit with rfl | hit
+    · have : x ∈ refsTy (shapeRepr t) := by cases o <;> simpa [itemRefs, refsTy] using hx
+      have := hcov.2.1 x this
+      rw [hnames] at this; simpa using this
+    · have := hcov.2.2 it hit x hx
+      rw [hnames] at this; simpa using this
+  | tuple es o =>
+    have hcov := createSubtypeList_covers es []
+    have hnames : (createSubtypeList es []).2 = ((createSubtypeList es []).1.map itemName).reverse := by
+      simpa using (definesOnce_list es [] List.nodup_nil).1
+    simp only [firstPass]
+    intro it hit x hx
+    simp only [List.map_cons, List.mem_cons]
+    right
+    rcases List.mem_cons.1 hit with rfl | hit
+    · have : x ∈ refsTys (shapeReprList es) := by cases o <;> simpa [itemRefs, refsTy] using hx
+      have := hcov.2.1 x this
+      rw [hnames] at this; simpa using this
+    · have := hcov.2.2 it hit x hx
+      rw [hnames] at this; simpa using this
+
 end ShapeVerif
